@@ -29,6 +29,11 @@ type TreeSpec struct {
 	Scripts          map[int][]string `json:"scripts"` // node id -> role operations
 	Bad              map[int]string   `json:"bad"`
 	Skip             []string         `json:"skip"` // role operations never drawn at random
+	// Pin ("" | "linear" | "reverse" | "rotate"): the world's managers are created with
+	// chain.WithExpiringContractOrder pinning, for every block in which two or more v1 contracts
+	// expire, that permutation of the linear order; the tree's ledgers (the oracle) apply the same
+	// order.  Only pinned worlds let v1 contracts share a window end.
+	Pin string `json:"pin"`
 }
 
 // Build materialises the tree: real mined blocks, classified by core.
@@ -38,9 +43,12 @@ func (ts TreeSpec) Build() *mat.RoleTree {
 	}
 	rw := mat.NewRoleWorld(mat.RoleParams{Params: mat.Params{Allow: ts.Allow, Require: ts.Require, Final: ts.Final, Seed: ts.Seed},
 		FoundationHeight: ts.FoundationHeight, FoundationTo: ts.FoundationTo, SubsidyEvery: ts.SubsidyEvery})
-	rw.UniqueWindows = true // the expiration ORDER of v1 contracts sharing a window end is C02's (known) business
+	// without a pin the expiration ORDER of v1 contracts sharing a window end is history dependent
+	// (C02's open finding), so only pinned worlds let contracts share one
+	rw.UniqueWindows = ts.Pin == ""
 	rng := rand.New(rand.NewSource(ts.Seed))
 	t := mat.NewRoleTree(rw)
+	t.PinMode = ts.Pin
 	if len(ts.Skip) > 0 {
 		t.Skip = map[string]bool{}
 		for _, s := range ts.Skip {
@@ -68,11 +76,15 @@ func (ts TreeSpec) Build() *mat.RoleTree {
 	return t
 }
 
-// NewManager opens a real chain.Manager over a fresh in-memory store for the tree's network.
+// NewManager opens a real chain.Manager over a fresh in-memory store for the tree's network; in a
+// pinned world with the option that pins the tree's expiration orders.
 func NewManager(t *mat.RoleTree) *chain.Manager {
 	st, cs, err := chain.NewDBStore(chain.NewMemDB(), t.W.N, t.W.Genesis, nil)
 	if err != nil {
 		panic(err)
+	}
+	if t.PinMode != "" {
+		return chain.NewManager(st, cs, chain.WithExpiringContractOrder(t.Pin))
 	}
 	return chain.NewManager(st, cs)
 }
@@ -96,11 +108,15 @@ type TreeJSON struct {
 	Height  []int      `json:"height"`
 	Valid   []bool     `json:"valid"`
 	Heavier [][]bool   `json:"heavier"`
-	WC      [][][3]int `json:"wc"` // per block: created outputs <<id, value mod P, maturity height>>
-	WS      [][][3]int `json:"ws"` // per block: spent outputs (same triples)
+	WC      [][][4]int `json:"wc"` // per block: created outputs <<id, value mod P, maturity height, leaf index>>
+	WS      [][][4]int `json:"ws"` // per block: spent outputs (same tuples)
 	WE      [][]EvJSON `json:"we"` // per block: events
 	Persona int        `json:"persona"`
 	Spec    int        `json:"spec"` // index of the real tree in specs.json
+	// PinMode is the manager option of the world (chain.WithExpiringContractOrder), Pin[b] the order
+	// (contract numbers) pinned for block b; the leaf indices in wc / ws are those of that order.
+	PinMode string  `json:"pinMode"`
+	Pin     [][]int `json:"pin"`
 }
 
 type EvJSON struct {
@@ -161,23 +177,28 @@ func (o *Oracle) View(id int) *View {
 func (o *Oracle) Abstract(persona, spec int) TreeJSON {
 	t := o.T
 	n := len(t.Nodes)
-	tj := TreeJSON{N: n, Persona: persona, Spec: spec}
+	tj := TreeJSON{N: n, Persona: persona, Spec: spec, PinMode: t.PinMode}
 	for _, nd := range t.Nodes {
 		tj.Parent = append(tj.Parent, nd.Parent)
 		tj.Height = append(tj.Height, int(nd.Height))
 		tj.Valid = append(tj.Valid, nd.ValidChain)
 		v := o.View(nd.ID)
-		wc, ws, we := [][3]int{}, [][3]int{}, []EvJSON{}
+		wc, ws, we := [][4]int{}, [][4]int{}, []EvJSON{}
 		for _, c := range v.Creates {
-			wc = append(wc, [3]int{o.Names.Of(types.Hash256(c.ID)), modP(c.Value), int(c.Maturity)})
+			wc = append(wc, [4]int{o.Names.Of(types.Hash256(c.ID)), modP(c.Value), int(c.Maturity), int(c.Leaf)})
 		}
 		for _, c := range v.Spends {
-			ws = append(ws, [3]int{o.Names.Of(types.Hash256(c.ID)), modP(c.Value), int(c.Maturity)})
+			ws = append(ws, [4]int{o.Names.Of(types.Hash256(c.ID)), modP(c.Value), int(c.Maturity), int(c.Leaf)})
 		}
 		for _, e := range v.Events {
 			we = append(we, EvJSON{ID: o.Names.Of(e.ID), In: modP(e.In), Out: modP(e.Out), Tag: e.Tag})
 		}
 		tj.WC, tj.WS, tj.WE = append(tj.WC, wc), append(tj.WS, ws), append(tj.WE, we)
+		pin := []int{}
+		for _, id := range t.Pin[nd.Block.ID()] {
+			pin = append(pin, o.Names.Of(types.Hash256(id)))
+		}
+		tj.Pin = append(tj.Pin, pin)
 	}
 	tj.Heavier = make([][]bool, n)
 	for i := range tj.Heavier {
